@@ -55,7 +55,11 @@ class Runner:
             from matid.clustering import SBC
             return SBC()
         from matid.classification.classifier import Classifier
-        return Classifier(**self.log.get("ctor", {}))
+        ctor = dict(self.log.get("ctor", {}))
+        if ctor.pop("pos_tol_array", False):
+            import numpy as np
+            ctor["pos_tol"] = np.array([float(ctor["pos_tol"])])
+        return Classifier(**ctor)
 
     def run(self, obj, k, j):
         import numpy as np
@@ -117,7 +121,7 @@ def _worker(args):
 
             @initialize(ss=st.lists(messy.structures(max_atoms=60, full_rank_only=(kind != "sbc"), allow_zero_periodic=False, slab_bias=(kind != "sbc")), min_size=2, max_size=2),
                         ps=st.lists(c01.params(), min_size=2, max_size=3),
-                        ctor=st.one_of(st.just({}), st.fixed_dictionaries({"pos_tol": gc.ffloat(0.1, 0.9), "max_cell_size": gc.ffloat(4.0, 14.0)})))
+                        ctor=st.one_of(st.just({}), st.fixed_dictionaries({"pos_tol": gc.ffloat(0.1, 0.9), "max_cell_size": gc.ffloat(4.0, 14.0), "pos_tol_array": st.booleans()})))
             def setup(self, ss, ps, ctor):
                 self.log["structures"] = ss
                 self.log["params"] = ps
